@@ -49,6 +49,17 @@ class Evo:
             if len(ft2) == 1 and len(it2) == 1:
                 ft, it_ = ft2, it2
         if len(ft) != 1 or len(it_) != 1:
+            # workers of the one-dimensional shortcut (y[0] = x - 1/2) also write the working array; the coordinate
+            # transform is the one that reads the box
+            bnames = {'lowerBoundOfFloatVariables', 'upperBoundOfFloatVariables'}
+            bnames |= {self.backing_field(b) for b in list(bnames)}
+
+            def reads_box(f):
+                return any(isinstance(n, ast.Attribute) and n.attr in bnames for n in ast.walk(f.node))
+            ft3, it3 = [f for f in ft if reads_box(f)], [f for f in it_ if reads_box(f)]
+            if len(ft3) == 1 and len(it3) == 1:
+                ft, it_ = ft3, it3
+        if len(ft) != 1 or len(it_) != 1:
             raise AnalysisError(f'coordinate transforms not recognised: {[f.name for f in ft]}, {[f.name for f in it_]}')
         self.p2d, self.d2p = ft[0], it_[0]
         self.node_fn = self._array_callee(self.forward, self.level_callees_fwd)
@@ -241,6 +252,9 @@ class Evo:
         a = self.loop_bound_attr(self.forward, lp)
         if a is not None:
             return a
+        lt = self.level_table()
+        if lt is not None:
+            return lt['attr']
         g = self._generator_callee(self.forward, lp)
         if g is not None:
             err = AnalysisError(f'{self.forward.short}: the level loop is driven by the generator {g.short}; the '
@@ -248,6 +262,93 @@ class Evo:
             err.undecided = True
             raise err
         raise AnalysisError(f'{self.forward.short}: level loop is not range(self.<density>)')
+
+    def level_table(self) -> Optional[dict]:
+        """Table form of the forward level loop: `for step in self.T` (or a local naming self.T).  The number of
+        levels is then len(T).  Returns {'table': T, 'attr': A, 'problems': [...]} where A is the attribute the
+        constructor stores verbatim from the parameter that also sizes T (len(T) == A after construction); problems
+        lists the routines that later re-define T with another length than A (the table no longer has the configured
+        number of rows).  None when the loop is not of this form."""
+        if hasattr(self, '_level_table'):
+            return self._level_table
+        self._level_table = None
+        from ..index import mangle
+        f = self.forward
+        lp = self.level_loop(f)
+        it = lp.iter
+        selfn = f.param_names[0]
+        T = None
+        if isinstance(it, ast.Attribute) and isinstance(it.value, ast.Name) and it.value.id == selfn:
+            T = mangle(self.cls.name, it.attr)
+        elif isinstance(it, ast.Name) and it.id in self.alias_map(f):
+            T = mangle(self.cls.name, self.alias_map(f)[it.id])
+        if T is None:
+            return None
+        ctx = self.ctx
+        ex = ctx.explorer(unroll=1, inline=lambda g, st: g.name != '__init__' and
+                          (g.cls is self.cls or (g.cls is None and g.module is self.cls.module)))
+        init = self.cls.methods['__init__']
+        cands = None
+        for p in C.normal_paths(ex.explore(init)):
+            selfk = key_of(var(init.param_names[0]))
+            ln = C.length_of(p.state.heap.get((selfk, T)))
+            if ln is None:
+                raise AnalysisError(f'{init.short}: the number of rows of the level table {T} is not determined')
+            here = set()
+            for (bk, fld), v in p.state.heap.items():
+                if bk == selfk and isinstance(fld, str) and fld != T and isinstance(v, RF) and v.equals(ln):
+                    a = v.single_atom()
+                    if isinstance(a, tuple) and len(a) == 2 and a[0] == 'var' and a[1] in init.param_names:
+                        here.add(fld)
+            cands = here if cands is None else (cands & here)
+        if not cands:
+            raise AnalysisError(f'{init.short}: the level table {T} is not sized by a constructor parameter that is '
+                                f'also stored in an attribute')
+        A = sorted(cands)[0]
+        problems = []
+        for nm, m in sorted(self.cls.methods.items()):
+            if m.kind != 'function' or m is init or not m.param_names:
+                continue
+            if m.name.startswith('_') and not (m.name.startswith('__') and m.name.endswith('__')) and \
+                    C.roles_of(ctx).callers_of(m):
+                continue        # a private helper: analysed inside the routines that call it
+            selfk = key_of(var(m.param_names[0]))
+            try:
+                paths = C.normal_paths(ex.explore(m))
+            except AnalysisError:
+                continue
+            for p in paths:
+                tv = p.state.heap.get((selfk, T))
+                if tv is None:
+                    continue
+                if not any(e_.kind == 'store' and e_.d['tkind'] == 'attr' and e_.d['field'] == T for e_ in p.events):
+                    continue
+                ln = C.length_of(tv)
+                want = attr(var(m.param_names[0]), A)
+                if ln is None or not C.same_mod_ver(ln, want):
+                    st = [e_ for e_ in p.events if e_.kind == 'store' and e_.d['tkind'] == 'attr' and e_.d['field'] == T][-1]
+                    problems.append({'func': m, 'node': st.node, 'where': st.func, 'len': ln})
+                    break
+        self._level_table = {'table': T, 'attr': A, 'problems': problems}
+        return self._level_table
+
+    def report_level_table(self, rid: str):
+        """Obligation of the table form: every routine that re-defines the level table keeps len(T) == density."""
+        lt = self.level_table()
+        if lt is None:
+            return
+        ctx = self.ctx
+        for pr in lt['problems']:
+            w = pr['where']
+            ctx.fail(rid, pr['func'].short, w.loc(pr['node']),
+                     f'{pr["func"].short} re-defines the level table {lt["table"]} with '
+                     f'{C.fmt(pr["len"]) if pr["len"] is not None else "an undetermined number of"} rows, not '
+                     f'self.{lt["attr"]}: from then on the forward descent runs that many levels whatever density '
+                     f'was configured', key=f'{rid}::{pr["func"].short}::level-table-rows')
+        if not lt['problems']:
+            ctx.ok(rid, f'{self.cls.name}.{lt["table"]}',
+                   f'the level table has self.{lt["attr"]} rows after the constructor and after every routine that '
+                   f're-defines it', self.cls.module.relpath)
 
     def _generator_callee(self, f: FuncInfo, lp) -> Optional[FuncInfo]:
         """The generator method of the class (a function containing yield) the loop iterates over, if any."""
